@@ -3,8 +3,10 @@
 Cases (plain JSON; containers use a tagged encoding, see ``dec``):
   {"kind": "method", "async": bool, "data": <container>, "method": name, "args": [...], "kwargs": {...},
    "route": route key, "nest": how the container is reached from the context}
-  {"kind": "filter", "async": bool, "filter": name, "value": <any>, "args": [...], "kwargs": {...},
+  {"kind": "filter", "async": bool, "autoescape": bool, "filter": name, "value": <any>, "args": [...], "kwargs": {...},
    "consume": "print" | "list" | "loop"}
+  optional in both: "autoescape": bool, "pre": [environment kinds ("sandbox" | "plain" | "immutable") that render the
+  same source first, each on its own copy of the data]
 
 Oracle: the context is built twice from the case (the second copy is the snapshot); after rendering in
 an ImmutableSandboxedEnvironment the context deep-equals the snapshot (exact types, order of
@@ -31,9 +33,12 @@ RULE = (
     "computed name, set/with alias, attr filter, map(attribute)/map('attr')/dotted path, format field and index "
     "lookups, macro argument, loop variable, list/namespace storage, default filter, do statement, call through a "
     "stored alias of an alias) enumerated completely in sync and async mode, with the container reached directly, "
-    "as list/tuple/dict element, object attribute or deep path (rotating); filter table: every built-in filter x 11 "
-    "container values x (no argument, each positional slot and each keyword parameter of its signature set to each "
-    "of 9 context-held values, required parameters filled) x {print, list, loop} consumption, sync and async; plus "
+    "as list/tuple/dict element, object attribute or deep path (rotating); histories: every method that can mutate, "
+    "rendered first in an ordinary SandboxedEnvironment and/or plain Environment of the same process (5 orders x 6 "
+    "routes x sync/async, run before anything else in the worker) and then judged in the immutable one; filter table: "
+    "every built-in filter x 12 container values x (no argument, each positional slot and each keyword parameter of "
+    "its signature set to each of 10 context-held values, required parameters filled) x {print, list, loop} "
+    "consumption x sync/async x autoescape off/on; plus "
     "Hypothesis-drawn containers (nested, deque maxlen), methods, arguments, routes and filter argument combinations. "
     "Non-trivial = (method) the same call performed in plain Python on a copy changes the container or an argument; "
     "(filter) the filter ran to completion on container data; distinct = distinct case."
@@ -249,10 +254,23 @@ def _excs():
     return _cache
 
 
-def _env(is_async):
-    from jinja2.sandbox import ImmutableSandboxedEnvironment
+def _env(is_async, autoescape=False, kind="immutable"):
+    import jinja2
+    from jinja2.sandbox import ImmutableSandboxedEnvironment, SandboxedEnvironment
 
-    return ImmutableSandboxedEnvironment(enable_async=is_async, extensions=["jinja2.ext.do"], cache_size=0)
+    cls = {"immutable": ImmutableSandboxedEnvironment, "sandbox": SandboxedEnvironment, "plain": jinja2.Environment}[kind]
+    return cls(enable_async=is_async, autoescape=autoescape, extensions=["jinja2.ext.do"], cache_size=0)
+
+
+def _history(case, src, make_ctx):
+    """Render the same source first in the environments listed in case["pre"] (each on its own throw-away copy of
+    the data, which an ordinary sandbox may of course modify): what other environments of the same process did
+    before must not weaken the immutable one."""
+    for kind in case.get("pre") or ():
+        try:
+            g.render(_env(case["async"], case.get("autoescape", False), kind), src, make_ctx())
+        except Exception:  # noqa: BLE001 - the outcome of the preceding renders is not judged
+            pass
 
 
 def _plain_call(case):
@@ -275,7 +293,8 @@ def check_method(case):
     snap, _ = _method_ctx(case)
     mutates, plain_exc = _plain_call(case)
     src = method_src(case)
-    env = _env(case["async"])
+    _history(case, src, lambda: _method_ctx(case)[0])
+    env = _env(case["async"], case.get("autoescape", False))
     allowed = (X["SecurityError"], X["UndefinedError"]) + ((plain_exc,) if plain_exc is not None else ())
     err = None
     try:
@@ -284,7 +303,8 @@ def check_method(case):
         err = e
     except Exception as e:  # noqa: BLE001 - judged after the data comparison
         err = e
-    where = "\n  async=%s data=%r args=%r kwargs=%r\n  template: %s" % (case["async"], case["data"], case["args"], case["kwargs"], src)
+    where = "\n  async=%s autoescape=%s rendered before in=%r data=%r args=%r kwargs=%r\n  template: %s" % (
+        case["async"], case.get("autoescape", False), case.get("pre") or [], case["data"], case["args"], case["kwargs"], src)
     d = deep_diff(ctx, snap)
     if d:
         raise core.Violation("immutable sandbox modified context data: %s (outcome %s)%s" % (d, "output" if err is None else type(err).__name__, where))
@@ -300,6 +320,8 @@ def check_method(case):
     ]
     if mutates:
         labels.append("mutator_%s.%s" % (tname, case["method"]))
+    if case.get("pre"):
+        labels.append("history_" + "_".join(case["pre"]))
     return core.Outcome(mutates, labels)
 
 
@@ -314,6 +336,40 @@ def method_cases():
                         k += 1
                         yield {"kind": "method", "async": is_async, "data": SAMPLES[tname], "method": m, "args": args, "kwargs": kwargs,
                                "route": rk, "nest": NEST_KEYS[k % len(NEST_KEYS)]}
+
+
+HISTORIES = [["sandbox"], ["plain", "sandbox"], ["immutable", "sandbox"], ["sandbox", "immutable"], ["sandbox", "sandbox"]]
+HISTORY_ROUTES = ["dot", "item", "attr", "map_attribute", "alias", "with"]
+
+
+def history_pairs():
+    """(type name, method, args, kwargs) for every method some argument shape makes mutate in plain Python."""
+    out = []
+    for tname in sorted(TYPES):
+        for m in method_names(tname):
+            for sk in SHAPE_KEYS:
+                args, kwargs = SHAPES[sk]
+                probe = {"kind": "method", "data": SAMPLES[tname], "method": m, "args": args, "kwargs": kwargs, "nest": "top"}
+                if _plain_call(probe)[0]:
+                    out.append((tname, m, args, kwargs))
+                    break
+    return out
+
+
+def history_cases(index=0, nshards=1):
+    """Each mutating method accessed first in an ordinary sandbox / plain environment, then in the immutable one.
+    All cases of one (type, method) pair go to one shard and are run before anything else there, so that the
+    pair's first use in that process is the non-immutable one."""
+    for i, (tname, m, args, kwargs) in enumerate(history_pairs()):
+        if i % nshards != index:
+            continue
+        k = 0
+        for pre in HISTORIES:
+            for rk in HISTORY_ROUTES:
+                for is_async in (False, True):
+                    k += 1
+                    yield {"kind": "method", "async": is_async, "data": SAMPLES[tname], "method": m, "args": args, "kwargs": kwargs,
+                           "route": rk, "nest": NEST_KEYS[k % len(NEST_KEYS)], "pre": pre}
 
 
 # ---------------------------------------------------------------------------------------
@@ -331,6 +387,7 @@ VALUES = {
     "pairs": [["a", [1]], ["b", [2]]],
     "nested": D(("a", D(("b", [1, 2]))), ("l", [Q(1)])),
     "deques": [Q(1, 2), Q(3)],
+    "mixed": [1, None, "a<b", [2], 1.5],
 }
 ARGVALS = {
     "a_list": [0],
@@ -342,6 +399,7 @@ ARGVALS = {
     "a_str": "0",
     "a_true": True,
     "a_key": "k",
+    "a_html": "<b>",
 }
 FILLERS = [2, "0", "a", "k"]
 CONSUME = {"print": "{{ @E@ }}", "list": "{{ @E@|list }}", "loop": "{% for q in @E@ %}{{ q }}{% endfor %}"}
@@ -399,20 +457,22 @@ def check_filter(case):
         raise core.Discard()  # uses the global RNG
     ctx, snap = _filter_ctx(case), _filter_ctx(case)
     src = filter_src(case)
-    env = _env(case["async"])
+    _history(case, src, lambda: _filter_ctx(case))
+    env = _env(case["async"], case.get("autoescape", False))
     ordinary = (X["TemplateError"], TypeError, ValueError, LookupError, AttributeError, ArithmeticError, AssertionError)
     err = None
     try:
         g.render(env, src, ctx)
     except ordinary as e:
         err = e
-    where = "\n  async=%s value=%r args=%r kwargs=%r\n  template: %s" % (case["async"], case["value"], case["args"], case["kwargs"], src)
+    where = "\n  async=%s autoescape=%s value=%r args=%r kwargs=%r\n  template: %s" % (
+        case["async"], case.get("autoescape", False), case["value"], case["args"], case["kwargs"], src)
     d = deep_diff(ctx, snap)
     if d:
         raise core.Violation("immutable sandbox modified context data through a filter: %s (outcome %s)%s" % (
             d, "output" if err is None else type(err).__name__, where))
     labels = ["filter", "async" if case["async"] else "sync", "f_" + case["filter"], "consume_" + case["consume"],
-              "filter_ok" if err is None else "filter_raised"]
+              "filter_ok" if err is None else "filter_raised", "autoescape_on" if case.get("autoescape") else "autoescape_off"]
     return core.Outcome(err is None, labels)
 
 
@@ -442,7 +502,9 @@ def filter_cases():
             for args, kwargs in variations:
                 for ck in ("print", "list", "loop"):
                     for is_async in (False, True):
-                        yield {"kind": "filter", "async": is_async, "filter": name, "value": VALUES[vk], "args": args, "kwargs": kwargs, "consume": ck}
+                        for autoescape in (False, True):
+                            yield {"kind": "filter", "async": is_async, "autoescape": autoescape, "filter": name, "value": VALUES[vk],
+                                   "args": args, "kwargs": kwargs, "consume": ck}
 
 
 def hash_name(name):
@@ -508,8 +570,13 @@ def random_method_case(draw):
     else:
         args = [draw(st.one_of(_scalars(), _container(1))) for _ in range(draw(st.integers(0, 2)))]
         kwargs = draw(st.one_of(st.just({}), st.just({}), st.fixed_dictionaries({"z": _scalars()}), st.just({"reverse": True})))
-    return {"kind": "method", "async": draw(st.booleans()), "data": data, "method": m, "args": args, "kwargs": kwargs,
+    case = {"kind": "method", "async": draw(st.booleans()), "data": data, "method": m, "args": args, "kwargs": kwargs,
             "route": draw(st.sampled_from(ROUTE_KEYS)), "nest": draw(st.sampled_from(NEST_KEYS))}
+    if draw(st.integers(0, 3)) == 0:
+        case["pre"] = draw(st.lists(st.sampled_from(["sandbox", "plain", "immutable"]), min_size=1, max_size=2))
+    if draw(st.integers(0, 3)) == 0:
+        case["autoescape"] = True
+    return case
 
 
 @st.composite
@@ -525,8 +592,11 @@ def random_filter_case(draw):
     free = kws[nargs:]
     for kw in draw(st.lists(st.sampled_from(free), max_size=2, unique=True)) if free else []:
         kwargs[kw] = draw(arg)
-    return {"kind": "filter", "async": draw(st.booleans()), "filter": name, "value": value, "args": args, "kwargs": kwargs,
-            "consume": draw(st.sampled_from(sorted(CONSUME)))}
+    case = {"kind": "filter", "async": draw(st.booleans()), "autoescape": draw(st.booleans()), "filter": name, "value": value,
+            "args": args, "kwargs": kwargs, "consume": draw(st.sampled_from(sorted(CONSUME)))}
+    if draw(st.integers(0, 5)) == 0:
+        case["pre"] = draw(st.lists(st.sampled_from(["sandbox", "plain", "immutable"]), min_size=1, max_size=2))
+    return case
 
 
 # ---------------------------------------------------------------------------------------
@@ -545,7 +615,9 @@ def shards(tier):
 def run_shard(spec, ctx):
     rec = core.Rec()
     # each stage runs only while nothing has failed: a failing tree is reported from the cheapest stage
-    core.enum_shard(core.sliced(method_cases(), ctx.index, ctx.nshards), check_case, ctx, rec=rec, stop_after=6)
+    core.enum_shard(history_cases(ctx.index, ctx.nshards), check_case, ctx, rec=rec, stop_after=6)
+    if not rec.violations:
+        core.enum_shard(core.sliced(method_cases(), ctx.index, ctx.nshards), check_case, ctx, rec=rec, stop_after=6)
     if not rec.violations:
         core.enum_shard(core.sliced(filter_cases(), ctx.index, ctx.nshards), check_case, ctx, rec=rec, stop_after=6)
     if not rec.violations:
